@@ -333,11 +333,24 @@ Definition commit (F : files) : vol :=
 (* ---------- the two runs the property compares ---------- *)
 Record cfg := { g_vttl : N * N; g_osz : N (* types.OffsetSize: 4, or 5 with -tags 5BytesOffset *) }.
 
-(* run h1, Compact/Compact2, run h2, CommitCompact *)
+(* makeupDiff fails when the .idx was empty when the compaction started
+   (lastCompactIndexOffset = 0) and has entries now: its backwards loop
+   "for idxOffset := indexSize - 16; uint64(idxOffset) >= lastCompactIndexOffset; idxOffset -= 16"
+   cannot end, reaches a negative offset and returns "offset -16 for index file is invalid" *)
+Definition makeup_fails (n1 : nat) (s2 : cvol) : bool :=
+  Nat.eqb n1 0 && negb (Nat.eqb (length (cidx s2)) 0).
+
+(* the .dat / .idx pair of a running volume *)
+Definition old_files (s : cvol) : files :=
+  {| f_recs := recs (cv s); f_end := dat_end (cv s); f_idx := cidx s |}.
+
+(* run h1, Compact/Compact2, run h2, CommitCompact: the files that get loaded.
+   When makeupDiff fails, CommitCompact removes .cpd/.cpx and reloads the old files. *)
 Definition compacted_files (g : cfg) (al : alg) (now_s : N) (ord : list N) (h1 h2 : list cevent) : files :=
   let s1 := c_exec (g_vttl g) cinit h1 in
   let s2 := c_exec (g_vttl g) s1 h2 in
-  makeup (g_osz g) ord (compact al (g_vttl g) now_s s1) (length (cidx s1)) s2.
+  if makeup_fails (length (cidx s1)) s2 then old_files s2
+  else makeup (g_osz g) ord (compact al (g_vttl g) now_s s1) (length (cidx s1)) s2.
 
 Definition compacted (g : cfg) (al : alg) (now_s : N) (ord : list N) (h1 h2 : list cevent) : vol :=
   commit (compacted_files g al now_s ord h1 h2).
